@@ -93,6 +93,13 @@ def run(facts, rep, tier, ctx):
         for o in scr5.obligations:
             if "the stored entry is not modified" in o["key"]:
                 rep.ob(("R14.6/" if w5.asyncw else "") + "R14.5a", o["fn"], o["key"].split("|")[2], o["ok"], o["detail"], o["loc"])
+        # "create starts empty" for every handle, not only the one returned: create_file replaces the stored entry by an empty
+        # one before it hands the writer out (a second handle opened meanwhile must not see the old bytes)
+        scr6 = _Rp("c")
+        _c01.table_m(facts, scr6, "M", "Mk", self_ty=w5.memory, trait=w5.trait.rsplit("::", 1)[1], ops_filter=("create_file",))
+        for o in scr6.obligations:
+            if o["rule"] == "M":
+                rep.ob(("R14.6/" if w5.asyncw else "") + "R14.5c", o["fn"], o["key"].split("|")[2], o["ok"], o["detail"], o["loc"])
     # through the overlay an append handle starts after the bytes the overlay showed: the copy-up is a complete byte copy
     # (copy_file of the resolved file) made before the upper layer's append handle is opened
     from . import c09
